@@ -76,8 +76,9 @@ def check_index(res, g, L, lm, stable, recs, variant, scratch, tag="x", gfa_orde
     if pad:
         recs = vi.pad_records(recs, pad)
     text = "".join(r.line() + "\n" for r in recs)
-    gaf_path = os.path.join(scratch, f"{tag}.gaf" + ("" if variant[0] == "plain" else ".gz"))
+    gaf_path = os.path.join(scratch, f"{tag}.gaf" + ("" if variant[0].startswith("plain") else ".gz"))
     vi.write_gaf(gaf_path, text, variant)
+    res.next_call()
     out, ind = vi.run_index(gaf_path, gfa_path)
     res.count("index_runs")
     case = case_of(L, lm, stable, unpadded, variant, gfa_order, pad)
@@ -142,7 +143,7 @@ def small_file(recs):
 
 
 def run_shard(spec, tier, scratch):
-    res = fw.ShardResult()
+    res = fw.ShardResult().begin(spec, tier)
     b = bounds(tier)
     L = conv.layout_from(spec["layout"])
     lm = spec["linkmode"]
@@ -155,6 +156,8 @@ def run_shard(spec, tier, scratch):
         check_index(res, g, L, lm, stable, recs, ("plain",), scratch, "all")
         check_index(res, g, L, lm, stable, recs[::-1], ("plain",), scratch, "rev", gfa_order="rev")
         check_index(res, g, L, lm, stable, recs, ("pysam",), scratch, "allgz", gfa_order="rev")
+        check_index(res, g, L, lm, stable, recs, ("plain-nonl",), scratch, "nonl")
+        check_index(res, g, L, lm, stable, recs[::-1], ("pysam-nonl",), scratch, "nonlgz")
         if spec.get("bgzf"):
             sm = small_file(recs)
             text = "".join(r.line() + "\n" for r in sm)
